@@ -311,6 +311,11 @@ where
         // note that the coefficients of the remainder polynomial are sent in reverse order and
         // this simplifies evaluation using Horner's method.
         let remainder_poly = channel.read_remainder()?;
+        // the remainder must be the one the prover committed to before the queries were drawn
+        match self.layer_commitments.last() {
+            Some(commitment) if H::hash_elements(&remainder_poly) == *commitment => {},
+            _ => return Err(VerifierError::RemainderCommitmentMismatch),
+        }
         if remainder_poly.len() > max_degree_plus_1 {
             return Err(VerifierError::RemainderDegreeMismatch(max_degree_plus_1 - 1));
         }
